@@ -6,12 +6,14 @@ from framework import Violation
 from props import register
 from props import httpcommon as hc
 
-CANARIES = ['<sCrIpT/q="\'>&x', '<ScRiPt>alert(1)</ScRiPt>', '"><sCrIpT>', '\'><sCrIpT x=y>', '<sCrIpT%20src=//e>']
+CANARIES = ['<sCrIpT/q="\'>&x', '<ScRiPt>alert(1)</ScRiPt>', '"><sCrIpT>', '\'><sCrIpT x=y>', '<sCrIpT%20src=//e>',
+            # (latin-1 view of raw bytes) markup right behind UTF-8 lead bytes, behind truncated and behind complete multi-byte sequences
+            '\xc3<sCrIpT\xc3>', '\xe2\x80<sCrIpT x=\xf0\x9f\x98"y\xc3>', '\xc3\xa9<sCrIpT>\xe2\x82\xac', '\xf0<sCrIpT>', '\xa3<sCrIpT>\xff']
 
 def triggers(rng):
     """list of (name, function(canary, rid) -> (request bytes, needs))"""
     return ['denied_path', 'denied_query', 'invalid_url_host', 'invalid_url_scheme', 'dns_fail', 'connect_fail', 'read_timeout', 'too_big', 'unsup_method', 'auth_required_user',
-            'zero_size', 'cannot_forward', 'invalid_req_version', 'invalid_req_method', 'denied_header_host', 'conn_timeout', 'bad_port', 'ftp_url', 'urn_url', 'long_header_name']
+            'zero_size', 'cannot_forward', 'invalid_req_version', 'invalid_req_method', 'denied_header_host', 'conn_timeout', 'bad_port', 'ftp_url', 'urn_url', 'long_header_name', 'unsup_version', 'expect_unsupported', 'bad_port_plain']
 
 @register
 class C33(hc.PProp):
@@ -56,7 +58,7 @@ class C33(hc.PProp):
         h.add('rule deny reply %s' % tok(b'ERR'))
         cl_i = 0
         for t in plan['txns']:
-            c = t['canary'].encode(); rid = b'%d' % t['id']
+            c = t['canary'].encode('latin-1'); rid = b'%d' % t['id']
             H = lambda host, extra=[]: [(b'Host', host), (b'X-Sim-Req', rid)] + extra
             k = t['trig']
             if k == 'denied_path': req = hc.request_head(b'GET', b'http://ok.test/denyme/' + c, H(b'ok.test'))
@@ -78,6 +80,9 @@ class C33(hc.PProp):
             elif k == 'invalid_req_method': req = b'G' + c + b'T http://ok.test/x HTTP/1.1\r\nHost: ok.test\r\n\r\n'
             elif k == 'denied_header_host': req = hc.request_head(b'GET', b'/local/' + c, H(b'evil' + c))
             elif k == 'bad_port': req = hc.request_head(b'GET', b'http://ok.test:99999' + c + b'/x', H(b'ok.test'))
+            elif k == 'bad_port_plain': req = hc.request_head(b'GET', b'http://ok.test:99999/' + c, H(b'ok.test'))
+            elif k == 'unsup_version': req = b'GET http://ok.test/' + c + b' HTTP/3.0\r\nHost: ok.test\r\nX-Sim-Req: ' + rid + b'\r\n\r\n'
+            elif k == 'expect_unsupported': req = hc.request_head(b'GET', b'http://ok.test/e', H(b'ok.test', [(b'Expect', b'x' + c.replace(b' ', b'')), (b'X-Note', c)]))
             elif k == 'ftp_url': req = hc.request_head(b'GET', b'ftp://refuse.test/' + c, H(b'refuse.test'))
             elif k == 'urn_url': req = hc.request_head(b'GET', b'urn:' + c, H(b'ok.test'))
             else: req = hc.request_head(b'GET', b'http://ok.test/denyme', H(b'ok.test', [(b'X-' + c.replace(b' ', b''), b'v')]))
